@@ -36,7 +36,7 @@ Section FLg.
     exists b'. rewrite E1. split; [exact E3|]. rewrite <- E6. symmetry. eapply brel_kind. exact E4.
   Qed.
 
-  (* ---------- binders that would capture the continuation (repair <commitcap>) ----------
+  (* ---------- binders that would capture the continuation (repair d5d4151) ----------
      The translation places the continuation under the binder of a let / the binders of the patterns of a case.
      When a name of a binder occurs free in the continuation, the continuation is first NAMED by a fresh
      covariable: < mu a. [[t]]_a | cont >, and the term is translated with the covariable as continuation.
